@@ -174,3 +174,507 @@ Proof.
   apply keeps_bind; [apply preorder_quiet|apply get_conn_quiet|]. intros _.
   apply keeps_bind; [apply preorder_quiet|apply send_request_quiet; exact Hs|]. intros _. apply get_response_quiet.
 Qed.
+
+(* ================================================================================== *)
+(* 2. the response decoders of the group operations never run out of fuel             *)
+(* ================================================================================== *)
+
+Definition shrinks {A} (d : dec A) (k : nat) : Prop :=
+  forall bs a r, d bs = Ok (a, r) -> (length r + k <= length bs)%nat.
+Definition nf {A} (d : dec A) : Prop := forall bs, d bs <> Err EOutOfFuel.
+
+Lemma cread_shrinks n : shrinks (cread n) n.
+Proof.
+  intros bs a r H. unfold cread in H. destruct (Nat.ltb (length bs) n) eqn:E; [discriminate|].
+  inversion H; subst. rewrite skipn_length. apply Nat.ltb_ge in E. lia.
+Qed.
+Lemma cread_nf n : nf (cread n).
+Proof. intros bs H. unfold cread in H. destruct (Nat.ltb (length bs) n); discriminate. Qed.
+
+Ltac dec_int_shrinks :=
+  let bs := fresh "bs" in let a := fresh "a" in let r := fresh "r" in let H := fresh "H" in
+  let x := fresh "x" in let r' := fresh "r'" in let E := fresh "E" in
+  intros bs a r H;
+  match type of H with ?f bs = _ => unfold f in H end;
+  match type of H with bind (cread ?n bs) _ = _ =>
+    destruct (cread n bs) as [[x r']| |] eqn:E; cbn [bind] in H; [|discriminate|discriminate];
+    inversion H; subst; exact (cread_shrinks n _ _ _ E) end.
+Ltac dec_int_nf :=
+  let bs := fresh "bs" in let H := fresh "H" in let x := fresh "x" in let r' := fresh "r'" in
+  let E := fresh "E" in
+  intros bs H;
+  match type of H with ?f bs = _ => unfold f in H end;
+  match type of H with bind (cread ?n bs) _ = _ =>
+    destruct (cread n bs) as [[x r']| |] eqn:E; cbn [bind] in H; [discriminate| |discriminate];
+    inversion H; subst; exact (cread_nf n _ E) end.
+
+Lemma dec_i16_shrinks : shrinks dec_i16 2. Proof. dec_int_shrinks. Qed.
+Lemma dec_i32_shrinks : shrinks dec_i32 4. Proof. dec_int_shrinks. Qed.
+Lemma dec_i64_shrinks : shrinks dec_i64 8. Proof. dec_int_shrinks. Qed.
+Lemma dec_i16_nf : nf dec_i16. Proof. dec_int_nf. Qed.
+Lemma dec_i32_nf : nf dec_i32. Proof. dec_int_nf. Qed.
+Lemma dec_i64_nf : nf dec_i64. Proof. dec_int_nf. Qed.
+
+Lemma dec_string_shrinks : shrinks dec_string 2.
+Proof.
+  intros bs a r H. unfold dec_string in H. destruct (dec_i16 bs) as [[len r']| |] eqn:E; cbn [bind] in H;
+    try discriminate. apply dec_i16_shrinks in E. destruct (len <=? 0); [inversion H; subst; lia|].
+  cbv zeta in H. destruct (_ && _); [|discriminate]. inversion H; subst. rewrite skipn_length. lia.
+Qed.
+Lemma dec_string_nf : nf dec_string.
+Proof.
+  intros bs H. unfold dec_string in H. destruct (dec_i16 bs) as [[len r']| |] eqn:E; cbn [bind] in H.
+  - destruct (len <=? 0); [discriminate|]. cbv zeta in H. destruct (_ && _); discriminate.
+  - inversion H; subst. exact (dec_i16_nf _ E).
+  - discriminate.
+Qed.
+
+Lemma dec_many_shrinks {A} (d : dec A) : shrinks d 0 -> forall fuel count, shrinks (dec_many d fuel count) 0.
+Proof.
+  intros Hd. induction fuel as [|f IH]; intros count bs a r H; cbn [dec_many] in H;
+    destruct (count <=? 0); try discriminate; try (inversion H; subst; lia).
+  destruct (d bs) as [[x r1]| |] eqn:E; cbn [bind] in H; try discriminate.
+  destruct (dec_many d f (count - 1) r1) as [[xs r2]| |] eqn:E2; cbn [bind] in H; try discriminate.
+  inversion H; subst. apply Hd in E. apply IH in E2. lia.
+Qed.
+Lemma dec_many_nf {A} (d : dec A) : shrinks d 1 -> nf d ->
+  forall fuel count bs, (length bs < fuel)%nat -> dec_many d fuel count bs <> Err EOutOfFuel.
+Proof.
+  intros Hd Hn. induction fuel as [|f IH]; intros count bs Hl H; [lia|]. cbn [dec_many] in H.
+  destruct (count <=? 0); [discriminate|].
+  destruct (d bs) as [[x r1]|e|w] eqn:E; cbn [bind] in H.
+  - destruct (dec_many d f (count - 1) r1) as [[xs r2]|e|w] eqn:E2; cbn [bind] in H; try discriminate.
+    inversion H; subst. apply Hd in E. apply (IH (count - 1) r1); [lia|exact E2].
+  - inversion H; subst. exact (Hn _ E).
+  - discriminate.
+Qed.
+Lemma dec_vec_shrinks {A} sz (d : dec A) : shrinks d 0 -> shrinks (dec_vec sz d) 4.
+Proof.
+  intros Hd bs a r H. unfold dec_vec in H. destruct (dec_i32 bs) as [[len r']| |] eqn:E; cbn [bind] in H;
+    try discriminate. apply dec_i32_shrinks in E. destruct (len <=? 0); [inversion H; subst; lia|].
+  apply (dec_many_shrinks d Hd) in H. lia.
+Qed.
+Lemma dec_vec_nf {A} sz (d : dec A) : shrinks d 1 -> nf d -> nf (dec_vec sz d).
+Proof.
+  intros Hd Hn bs H. unfold dec_vec in H. destruct (dec_i32 bs) as [[len r']|e|w] eqn:E; cbn [bind] in H.
+  - destruct (len <=? 0); [discriminate|]. apply (dec_many_nf d Hd Hn) in H; [exact H|lia].
+  - inversion H; subst. exact (dec_i32_nf _ E).
+  - discriminate.
+Qed.
+Lemma shrinks_weaken {A} (d : dec A) k k' : (k' <= k)%nat -> shrinks d k -> shrinks d k'.
+Proof. intros Hk Hd bs a r H. apply Hd in H. lia. Qed.
+
+(* chains `let* '(x, r) := d1 bs in ...` *)
+Ltac chain_shrinks H :=
+  repeat match type of H with
+  | bind (?d ?bs) _ = Ok _ =>
+      let x := fresh "x" in let r := fresh "r" in let E := fresh "E" in
+      destruct (d bs) as [[x r]| |] eqn:E; cbn [bind] in H; [|discriminate|discriminate]
+  end.
+Ltac chain_nf H lem :=
+  repeat match type of H with
+  | bind (?d ?bs) _ = Err EOutOfFuel =>
+      let x := fresh "x" in let r := fresh "r" in let e := fresh "e" in let E := fresh "E" in
+      destruct (d bs) as [[x r]|e|] eqn:E; cbn [bind] in H;
+      [|inversion H; subst; exfalso; revert E; first [apply dec_i16_nf|apply dec_i32_nf|apply dec_i64_nf|apply dec_string_nf|lem]
+       |discriminate]
+  end.
+
+Lemma dec_offset_commit_part_shrinks : shrinks dec_offset_commit_part 1.
+Proof.
+  intros bs a r H. unfold dec_offset_commit_part in H. chain_shrinks H. inversion H; subst.
+  apply dec_i32_shrinks in E. apply dec_i16_shrinks in E0. lia.
+Qed.
+Lemma dec_offset_commit_part_nf : nf dec_offset_commit_part.
+Proof. intros bs H. unfold dec_offset_commit_part in H. chain_nf H ltac:(fail). discriminate. Qed.
+
+Lemma dec_offset_fetch_part_shrinks : shrinks dec_offset_fetch_part 1.
+Proof.
+  intros bs a r H. unfold dec_offset_fetch_part in H. chain_shrinks H. inversion H; subst.
+  apply dec_i32_shrinks in E. apply dec_i64_shrinks in E0. apply dec_string_shrinks in E1.
+  apply dec_i16_shrinks in E2. lia.
+Qed.
+Lemma dec_offset_fetch_part_nf : nf dec_offset_fetch_part.
+Proof. intros bs H. unfold dec_offset_fetch_part in H. chain_nf H ltac:(fail). discriminate. Qed.
+
+Lemma dec_tps_nf {P} psize (dp : dec P) : shrinks dp 1 -> nf dp -> nf (dec_tps psize dp).
+Proof.
+  intros Hs Hn. unfold dec_tps. apply dec_vec_nf.
+  - intros bs a r H. chain_shrinks H. inversion H; subst. apply dec_string_shrinks in E.
+    apply (dec_vec_shrinks psize dp (shrinks_weaken dp 1 0 (Nat.le_0_l 1) Hs)) in E0. lia.
+  - intros bs H. chain_nf H ltac:(apply (dec_vec_nf psize dp Hs Hn)). discriminate.
+Qed.
+
+Lemma dec_offset_commit_resp_nf : nf dec_offset_commit_resp.
+Proof.
+  intros bs H. unfold dec_offset_commit_resp, dec_corr in H.
+  chain_nf H ltac:(apply (dec_tps_nf 8 _ dec_offset_commit_part_shrinks dec_offset_commit_part_nf)).
+  discriminate.
+Qed.
+Lemma dec_offset_fetch_resp_nf : nf dec_offset_fetch_resp.
+Proof.
+  intros bs H. unfold dec_offset_fetch_resp, dec_corr in H.
+  chain_nf H ltac:(apply (dec_tps_nf 48 _ dec_offset_fetch_part_shrinks dec_offset_fetch_part_nf)).
+  discriminate.
+Qed.
+Lemma dec_coordinator_resp_nf : nf dec_coordinator_resp.
+Proof. intros bs H. unfold dec_coordinator_resp, dec_corr in H. chain_nf H ltac:(fail). discriminate. Qed.
+
+(* ================================================================================== *)
+(* 3. coordinator lookup                                                              *)
+(* ================================================================================== *)
+
+Definition with_cs (s : st) (x : cstate) : st := snd (set_cs x s).
+
+Lemma set_cs_eq x s : set_cs x s = (Ok tt, with_cs s x).
+Proof. reflexivity. Qed.
+Lemma with_cs_seg s x : seg s (with_cs s x) [] [].
+Proof. split; reflexivity. Qed.
+Lemma with_cs_cfg s x : cfg (cl (with_cs s x)) = cfg (cl s).
+Proof. reflexivity. Qed.
+Lemma with_cs_cs s x : cs (cl (with_cs s x)) = x.
+Proof. reflexivity. Qed.
+Lemma with_cs_quiet fr s x : quiet fr s (with_cs s x).
+Proof.
+  pose proof (with_cs_seg s x) as Hs. split; [exists [], []; exact Hs|].
+  unfold attempts, interruptions. rewrite (seg_performed _ _ _ _ Hs), (seg_consumed _ _ _ _ Hs). cbn. lia.
+Qed.
+Lemma with_cs_ext s x : ext s (with_cs s x).
+Proof. exists [], []. apply with_cs_seg. Qed.
+
+(* the config is never touched *)
+Definition same_cfgc (s s' : st) : Prop := cfg (cl s') = cfg (cl s).
+Lemma preorder_same_cfgc : preorder same_cfgc.
+Proof. split; [intros s; reflexivity|intros s s1 s2 H1 H2; unfold same_cfgc in *; congruence]. Qed.
+
+(* ---- one attempt ----------------------------------------------------------------------- *)
+Section LookupAttempt.
+  Variable R : st -> st -> Prop.
+  Hypothesis HR : preorder R.
+  Variable req : res bytes.
+  Hypothesis Hany : keeps R get_conn_any.
+  Hypothesis Hsend : forall h, keeps R (send_request h req).
+  Hypothesis Hresp : forall h, keeps R (get_response dec_coordinator_resp h).
+
+  Lemma keepsR_lookup_attempt : keeps R (group_lookup_attempt req).
+  Proof.
+    apply keeps_bind; [exact HR|exact Hany|]. intros [h|]; [|apply keeps_mpanic; exact HR].
+    apply keeps_bind; [exact HR|apply Hsend|]. intros _. apply Hresp.
+  Qed.
+End LookupAttempt.
+
+Lemma lookup_attempt_ext req : keeps ext (group_lookup_attempt req).
+Proof.
+  apply keepsR_lookup_attempt; [apply preorder_ext|apply ext_get_conn_any| |]; intros h.
+  - apply tracks_ext, tracks_send_request.
+  - apply tracks_ext, tracks_get_response.
+Qed.
+Lemma lookup_attempt_same_cl req : keeps same_cl (group_lookup_attempt req).
+Proof.
+  apply keepsR_lookup_attempt; [apply preorder_same_cl|apply frame_get_conn_any| |]; intros h s r s' H.
+  - apply (frame_send_request _ _ _ _ _ H).
+  - apply (frame_get_response _ _ _ _ _ _ H).
+Qed.
+Lemma lookup_attempt_quiet req fr : short fr req -> keeps (quiet fr) (group_lookup_attempt req).
+Proof.
+  intros Hs. apply keepsR_lookup_attempt; [apply preorder_quiet|apply get_conn_any_quiet| |]; intros h.
+  - apply send_request_quiet. exact Hs.
+  - apply get_response_quiet.
+Qed.
+Lemma lookup_attempt_att p : keeps (att_le (frame p) 1) (group_lookup_attempt (Ok p)).
+Proof.
+  unfold group_lookup_attempt. change 1 with (0 + 1).
+  apply keeps_bind_att; [lia|apply get_conn_any_quiet|]. intros [h|].
+  - change 1 with (1 + 0). apply keeps_bind_att; [lia|apply send_request_att|]. intros _. apply get_response_quiet.
+  - intros s r s' H. inversion H; subst. apply att_le_refl. lia.
+Qed.
+
+Lemma get_response_nofuel {A} (d : dec A) h : nf d -> nofuel (get_response d h).
+Proof.
+  intros Hd s r s' H Hr. destruct (get_response_inv _ _ _ _ _ H) as [[b [Hb Hq]]|[e [Hb Hq]]]; subst r.
+  - destruct (d b) as [[a rest]|e|w] eqn:E; try discriminate. inversion Hr; subst. exact (Hd _ E).
+  - inversion Hr; subst. exact (nofuel_get_response_bytes _ _ _ _ Hb eq_refl).
+Qed.
+Lemma nofuel_lift {A} (x : res A) : x <> Err EOutOfFuel -> nofuel (lift x).
+Proof. intros Hx s r s' H. inversion H; subst. exact Hx. Qed.
+Lemma nofuel_mpanic {A} w : nofuel (@mpanic A w).
+Proof. intros s r s' H. inversion H; subst. discriminate. Qed.
+Lemma send_request_nofuel h req : req <> Err EOutOfFuel -> nofuel (send_request h req).
+Proof. intros Hq. apply nofuel_bind; [apply nofuel_lift; exact Hq|intros p; apply nofuel_send]. Qed.
+Lemma send_receive_nofuel {A} (d : dec A) h req : nf d -> req <> Err EOutOfFuel -> nofuel (send_receive d h req).
+Proof.
+  intros Hd Hq. apply nofuel_bind; [apply nofuel_get_conn|]. intros _.
+  apply nofuel_bind; [apply send_request_nofuel; exact Hq|]. intros _. apply get_response_nofuel. exact Hd.
+Qed.
+Lemma lookup_attempt_nofuel req : req <> Err EOutOfFuel -> nofuel (group_lookup_attempt req).
+Proof.
+  intros Hq. apply nofuel_bind; [apply nofuel_get_conn_any|]. intros [h|]; [|apply nofuel_mpanic].
+  apply nofuel_bind; [apply send_request_nofuel; exact Hq|]. intros _.
+  apply get_response_nofuel, dec_coordinator_resp_nf.
+Qed.
+
+Lemma send_request_ok_inv h req s z s' : send_request h req s = (Ok z, s') ->
+  exists p, req = Ok p /\ (length (script s') < length (script s))%nat.
+Proof.
+  intros H. unfold send_request in H. unfold mbind at 1 in H. unfold lift in H.
+  destruct req as [p|e|w]; try discriminate. exists p. split; [reflexivity|].
+  unfold send in H. bind_inv H u s1 H1 H2; try discriminate. inversion H2; subst. destruct u.
+  unfold with_fuel in H1. exact (write_all_ok_shrinks _ _ _ _ _ H1 (frame_nonempty p)).
+Qed.
+
+(* a decoded answer means the attempt consumed at least one script item *)
+Lemma lookup_attempt_ok_shrinks req s resp s1 :
+  group_lookup_attempt req s = (Ok resp, s1) -> (length (script s1) < length (script s))%nat.
+Proof.
+  intros H. unfold group_lookup_attempt in H. bind_inv H oh s0 H1 H2; try discriminate.
+  destruct oh as [h|]; [|discriminate]. bind_inv H2 z s2 H3 H4; try discriminate.
+  destruct (send_request_ok_inv _ _ _ _ _ H3) as [p [_ Hl]].
+  pose proof (ext_script_le _ _ (ext_get_conn_any _ _ _ H1)).
+  pose proof (ext_script_le _ _ (tracks_ext _ (tracks_get_response _ h) _ _ _ H4)). lia.
+Qed.
+
+(* ---- the loop: one iteration spelled out --------------------------------------------------- *)
+Lemma lookup_loop_step f group req attempt s :
+  group_lookup_loop (S f) group req attempt s =
+  match group_lookup_attempt req s with
+  | (Ok resp, s1) =>
+      match from_protocol (gc_error resp) with
+      | None => (Ok (fst (set_group_coordinator (cs (cl s1)) group resp)),
+                 with_cs s1 (snd (set_group_coordinator (cs (cl s1)) group resp)))
+      | Some code =>
+          if code =? KC_GroupCoordinatorNotAvailable then
+            if attempt <? retry_max_attempts (cfg (cl s1)) then group_lookup_loop f group req (attempt + 1) s1
+            else (Err (EKafka code), s1)
+          else (Err (EKafka code), s1)
+      end
+  | (Err e, s1) => (Err e, s1)
+  | (Panic w, s1) => (Panic w, s1)
+  end.
+Proof.
+  cbn [group_lookup_loop]. unfold mbind at 1.
+  destruct (group_lookup_attempt req s) as [[resp|e|w] s1]; try reflexivity.
+  destruct (from_protocol (gc_error resp)) as [code|].
+  - destruct (code =? KC_GroupCoordinatorNotAvailable); [|reflexivity].
+    unfold mbind at 1. unfold get_client at 1. destruct (attempt <? retry_max_attempts (cfg (cl s1))); reflexivity.
+  - unfold mbind at 1. unfold get_client at 1.
+    destruct (set_group_coordinator (cs (cl s1)) group resp) as [h cs'] eqn:E. cbn [fst snd].
+    unfold mbind. rewrite set_cs_eq. reflexivity.
+Qed.
+
+Lemma lookup_loop_cfg fuel group req : forall attempt, keeps (fun s s' => ext s s' /\ same_cfgc s s') (group_lookup_loop fuel group req attempt).
+Proof.
+  induction fuel as [|f IH]; intros attempt s r s' H.
+  - inversion H; subst. split; [apply ext_refl|reflexivity].
+  - rewrite lookup_loop_step in H.
+    destruct (group_lookup_attempt req s) as [[resp|e|w] s1] eqn:E.
+    + pose proof (lookup_attempt_ext _ _ _ _ E) as E1. pose proof (lookup_attempt_same_cl _ _ _ _ E) as C1.
+      unfold same_cl in C1. unfold same_cfgc.
+      destruct (from_protocol (gc_error resp)) as [code|].
+      * destruct (code =? KC_GroupCoordinatorNotAvailable);
+          [destruct (attempt <? retry_max_attempts (cfg (cl s1)))|]; try (inversion H; subst; split; [exact E1|congruence]).
+        destruct (IH _ _ _ _ H) as [E2 C2]. unfold same_cfgc in C2.
+        split; [eapply ext_trans; eassumption|congruence].
+      * inversion H; subst. split; [eapply ext_trans; [exact E1|apply with_cs_ext]|]. rewrite with_cs_cfg. congruence.
+    + inversion H; subst. split; [eapply lookup_attempt_ext; exact E|].
+      pose proof (lookup_attempt_same_cl _ _ _ _ E) as C1. unfold same_cl in C1. unfold same_cfgc. congruence.
+    + inversion H; subst. split; [eapply lookup_attempt_ext; exact E|].
+      pose proof (lookup_attempt_same_cl _ _ _ _ E) as C1. unfold same_cl in C1. unfold same_cfgc. congruence.
+Qed.
+
+Lemma lookup_loop_quiet fuel group req fr : short fr req ->
+  forall attempt, keeps (quiet fr) (group_lookup_loop fuel group req attempt).
+Proof.
+  intros Hs. induction fuel as [|f IH]; intros attempt s r s' H.
+  - inversion H; subst. apply preorder_quiet.
+  - rewrite lookup_loop_step in H.
+    destruct (group_lookup_attempt req s) as [[resp|e|w] s1] eqn:E;
+      pose proof (lookup_attempt_quiet _ fr Hs _ _ _ E) as Q1.
+    + destruct (from_protocol (gc_error resp)) as [code|].
+      * destruct (code =? KC_GroupCoordinatorNotAvailable);
+          [destruct (attempt <? retry_max_attempts (cfg (cl s1)))|]; try (inversion H; subst; exact Q1).
+        eapply (proj2 (preorder_quiet fr)); [exact Q1|eapply IH; exact H].
+      * inversion H; subst. eapply (proj2 (preorder_quiet fr)); [exact Q1|apply with_cs_quiet].
+    + inversion H; subst. exact Q1.
+    + inversion H; subst. exact Q1.
+Qed.
+
+(* ---- C14 for the lookup ------------------------------------------------------------------------- *)
+
+(* The bound.  The count requested in the task (events EWrite _ (frame p)) also counts the
+   re-offers write_all makes after an interrupted write (OWriteIntr), so the bound holds up to
+   the number of interruptions consumed; see C14_lookup_bound_refuted and C14_lookup_bound. *)
+Theorem C14_lookup_bound_partial : forall fuel group p attempt s r s',
+  group_lookup_loop fuel group (Ok p) attempt s = (r, s') ->
+  attempts (frame p) s s' <= Z.max 1 (retry_max_attempts (cfg (cl s)) - attempt + 1) + interruptions s s'.
+Proof.
+  intros fuel group p. 
+  assert (K : forall fuel attempt s r s', group_lookup_loop fuel group (Ok p) attempt s = (r, s') ->
+              att_le (frame p) (Z.max 1 (retry_max_attempts (cfg (cl s)) - attempt + 1)) s s').
+  { clear fuel. induction fuel as [|f IH]; intros attempt s r s' H.
+    - inversion H; subst. apply att_le_refl. lia.
+    - rewrite lookup_loop_step in H.
+      destruct (group_lookup_attempt (Ok p) s) as [[resp|e|w] s1] eqn:E;
+        pose proof (lookup_attempt_att p _ _ _ E) as Q1;
+        pose proof (lookup_attempt_same_cl _ _ _ _ E) as C1; unfold same_cl in C1.
+      + destruct (from_protocol (gc_error resp)) as [code|].
+        * destruct (code =? KC_GroupCoordinatorNotAvailable);
+            [destruct (attempt <? retry_max_attempts (cfg (cl s1))) eqn:Ea|];
+            try (inversion H; subst; eapply att_le_mono; [|exact Q1]; lia).
+          specialize (IH _ _ _ _ H). rewrite C1 in IH, Ea.
+          eapply att_le_mono; [|eapply att_le_trans; [exact Q1|exact IH]]. lia.
+        * inversion H; subst. eapply att_le_mono; [|eapply att_le_trans; [exact Q1|apply with_cs_quiet]]. lia.
+      + inversion H; subst. eapply att_le_mono; [|exact Q1]. lia.
+      + inversion H; subst. eapply att_le_mono; [|exact Q1]. lia. }
+  intros attempt s r s' H. exact (proj2 (K _ _ _ _ _ H)).
+Qed.
+
+Lemma count_intr_zero outs : ~ In OWriteIntr outs -> count_intr outs = 0.
+Proof.
+  induction outs as [|o outs IH]; intros Hn; [reflexivity|]. rewrite count_intr_cons, IH.
+  - destruct o; cbn [is_intr]; try reflexivity. exfalso. apply Hn. left. reflexivity.
+  - intros Hi. apply Hn. right. exact Hi.
+Qed.
+
+(* as stated in the task, for streams without interrupted writes (1 <= attempt is not needed) *)
+Theorem C14_lookup_bound : forall fuel group p attempt s r s',
+  group_lookup_loop fuel group (Ok p) attempt s = (r, s') -> 1 <= attempt ->
+  ~ In OWriteIntr (consumed s s') ->
+  attempts (frame p) s s' <= Z.max 1 (retry_max_attempts (cfg (cl s)) - attempt + 1).
+Proof.
+  intros fuel group p attempt s r s' H _ Hn. pose proof (C14_lookup_bound_partial _ _ _ _ _ _ _ H) as B.
+  unfold interruptions in B. rewrite (count_intr_zero _ Hn) in B. lia.
+Qed.
+
+(* never out of fuel: every iteration that goes on consumed at least one script item *)
+Lemma lookup_loop_nofuel fuel group req : req <> Err EOutOfFuel -> forall attempt s r s',
+  group_lookup_loop fuel group req attempt s = (r, s') -> (length (script s) < fuel)%nat -> r <> Err EOutOfFuel.
+Proof.
+  intros Hq. induction fuel as [|f IH]; intros attempt s r s' H Hl; [lia|].
+  rewrite lookup_loop_step in H. destruct (group_lookup_attempt req s) as [[resp|e|w] s1] eqn:E.
+  - pose proof (lookup_attempt_ok_shrinks _ _ _ _ E) as Hs.
+    destruct (from_protocol (gc_error resp)) as [code|]; [|inversion H; subst; discriminate].
+    destruct (code =? KC_GroupCoordinatorNotAvailable);
+      [destruct (attempt <? retry_max_attempts (cfg (cl s1)))|]; try (inversion H; subst; discriminate).
+    eapply IH; [exact H|lia].
+  - inversion H; subst. intros Hr. inversion Hr; subst. exact (lookup_attempt_nofuel _ Hq _ _ _ E eq_refl).
+  - inversion H; subst. discriminate.
+Qed.
+
+(* ---- result ---------------------------------------------------------------------------------------- *)
+(* n attempts in a row were answered "coordinator not available" and were retried *)
+Inductive lookup_retried (req : res bytes) : nat -> Z -> st -> st -> Prop :=
+| LR_O attempt s : lookup_retried req O attempt s s
+| LR_S n attempt s resp s1 sk :
+    group_lookup_attempt req s = (Ok resp, s1) ->
+    from_protocol (gc_error resp) = Some KC_GroupCoordinatorNotAvailable ->
+    attempt < retry_max_attempts (cfg (cl s1)) ->
+    lookup_retried req n (attempt + 1) s1 sk ->
+    lookup_retried req (S n) attempt s sk.
+
+(* how the attempt that ends the loop determines the result *)
+Definition lookup_final (group : bytes) (req : res bytes) (last_attempt : Z) (sk : st) (r : res bytes) (s' : st) : Prop :=
+  match group_lookup_attempt req sk with
+  | (Ok resp, s1) =>
+      match from_protocol (gc_error resp) with
+      | None => gc_error resp = 0 /\
+                r = Ok (fst (set_group_coordinator (cs (cl s1)) group resp)) /\
+                s' = with_cs s1 (snd (set_group_coordinator (cs (cl s1)) group resp))
+      | Some c => r = Err (EKafka c) /\ s' = s1 /\
+                  (c = KC_GroupCoordinatorNotAvailable -> retry_max_attempts (cfg (cl s1)) <= last_attempt)
+      end
+  | (Err e, s1) => r = Err e /\ s' = s1
+  | (Panic w, s1) => r = Panic w /\ s' = s1
+  end.
+
+Lemma from_protocol_none n : from_protocol n = None -> n = 0.
+Proof.
+  unfold from_protocol. destruct (n =? 0) eqn:E; [lia|]. destruct (_ && _); discriminate.
+Qed.
+
+Theorem C14_lookup_result : forall fuel group req attempt s r s',
+  group_lookup_loop fuel group req attempt s = (r, s') -> (length (script s) < fuel)%nat ->
+  exists n sk, lookup_retried req n attempt s sk /\ lookup_final group req (attempt + Z.of_nat n) sk r s'.
+Proof.
+  induction fuel as [|f IH]; intros group req attempt s r s' H Hl; [lia|].
+  rewrite lookup_loop_step in H. destruct (group_lookup_attempt req s) as [[resp|e|w] s1] eqn:E.
+  - destruct (from_protocol (gc_error resp)) as [code|] eqn:Ep.
+    + destruct (code =? KC_GroupCoordinatorNotAvailable) eqn:Ec.
+      * assert (code = KC_GroupCoordinatorNotAvailable) as -> by lia.
+        destruct (attempt <? retry_max_attempts (cfg (cl s1))) eqn:Ea.
+        -- pose proof (lookup_attempt_ok_shrinks _ _ _ _ E) as Hs.
+           destruct (IH _ _ _ _ _ _ H ltac:(lia)) as (n & sk & Hr & Hf).
+           exists (S n), sk. split; [eapply LR_S; [exact E|exact Ep|lia|exact Hr]|].
+           replace (attempt + Z.of_nat (S n)) with (attempt + 1 + Z.of_nat n) by lia. exact Hf.
+        -- inversion H; subst. exists O, s. split; [constructor|]. unfold lookup_final. rewrite E, Ep.
+           repeat split. intros _. cbn. lia.
+      * inversion H; subst. exists O, s. split; [constructor|]. unfold lookup_final. rewrite E, Ep.
+        repeat split. intros ->. lia.
+    + inversion H; subst. exists O, s. split; [constructor|]. unfold lookup_final. rewrite E, Ep.
+      repeat split. apply from_protocol_none. exact Ep.
+  - inversion H; subst. exists O, s. split; [constructor|]. unfold lookup_final. rewrite E. split; reflexivity.
+  - inversion H; subst. exists O, s. split; [constructor|]. unfold lookup_final. rewrite E. split; reflexivity.
+Qed.
+
+(* attempt increases by exactly one per retry, the limit is the same all along *)
+Lemma lookup_retried_cfg req n attempt s sk : lookup_retried req n attempt s sk -> cfg (cl sk) = cfg (cl s).
+Proof.
+  induction 1 as [|n attempt s resp s1 sk E Ep Ea Hr IH]; [reflexivity|].
+  pose proof (lookup_attempt_same_cl _ _ _ _ E) as C1. unfold same_cl in C1. congruence.
+Qed.
+
+(* the readable consequences *)
+Corollary C14_lookup_ok_iff : forall fuel group req attempt s r s',
+  group_lookup_loop fuel group req attempt s = (r, s') -> (length (script s) < fuel)%nat ->
+  ((exists host, r = Ok host) <->
+   exists n sk resp s1, lookup_retried req n attempt s sk /\
+     group_lookup_attempt req sk = (Ok resp, s1) /\ gc_error resp = 0).
+Proof.
+  intros fuel group req attempt s r s' H Hl.
+  destruct (C14_lookup_result _ _ _ _ _ _ _ H Hl) as (n & sk & Hr & Hf). split.
+  - intros [host ->]. unfold lookup_final in Hf.
+    destruct (group_lookup_attempt req sk) as [[resp|e|w] s1] eqn:E.
+    + destruct (from_protocol (gc_error resp)) as [c|] eqn:Ep.
+      * destruct Hf as [Hx _]. discriminate.
+      * exists n, sk, resp, s1. split; [exact Hr|]. split; [exact E|apply Hf].
+    + destruct Hf as [Hx _]. discriminate.
+    + destruct Hf as [Hx _]. discriminate.
+  - intros (n' & sk' & resp & s1 & Hr' & E & H0).
+    (* the run is deterministic: the two descriptions coincide *)
+    assert (Hdet : forall n1 a s0 k1, lookup_retried req n1 a s0 k1 ->
+              forall n2 k2 resp2 s2, lookup_retried req n2 a s0 k2 ->
+                group_lookup_attempt req k2 = (Ok resp2, s2) -> gc_error resp2 = 0 ->
+                (n1 <= n2)%nat).
+    { clear. induction 1 as [|n1 a s0 resp s1 k1 E Ep Ea Hr IH]; intros n2 k2 resp2 s2 H2 E2 H0; [lia|].
+      inversion H2; subst.
+      - rewrite E in E2. inversion E2; subst. rewrite H0 in Ep. discriminate.
+      - rewrite E in H. inversion H; subst. specialize (IH _ _ _ _ H4 E2 H0). lia. }
+    assert (Hdet2 : forall n1 a s0 k1, lookup_retried req n1 a s0 k1 ->
+              forall k2, lookup_retried req n1 a s0 k2 -> k1 = k2).
+    { clear. induction 1 as [|n1 a s0 resp s1 k1 E Ep Ea Hr IH]; intros k2 H2; inversion H2; subst; [reflexivity|].
+      rewrite E in H0. inversion H0; subst. apply IH. assumption. }
+    assert (Hpre : forall n1 a s0 k1, lookup_retried req n1 a s0 k1 -> forall n2 k2, lookup_retried req n2 a s0 k2 ->
+              (n1 < n2)%nat -> exists resp1 s1, group_lookup_attempt req k1 = (Ok resp1, s1) /\
+                                 from_protocol (gc_error resp1) = Some KC_GroupCoordinatorNotAvailable /\
+                                 a + Z.of_nat n1 < retry_max_attempts (cfg (cl s1))).
+    { clear. induction 1 as [|n1 a s0 resp s1 k1 E Ep Ea Hr IH]; intros n2 k2 H2 Hlt.
+      - inversion H2; subst; [lia|]. exists resp, s1. split; [assumption|]. split; [assumption|]. lia.
+      - inversion H2; subst; [lia|]. rewrite E in H. inversion H; subst.
+        destruct (IH _ _ H4 ltac:(lia)) as (resp1 & s2 & A1 & A2 & A3). exists resp1, s2.
+        split; [exact A1|]. split; [exact A2|]. lia. }
+    pose proof (Hdet _ _ _ _ Hr _ _ _ _ Hr' E H0) as Hle.
+    destruct (Nat.eq_dec n n') as [->|Hne].
+    + rewrite (Hdet2 _ _ _ _ Hr _ Hr') in Hf. unfold lookup_final in Hf. rewrite E, H0 in Hf.
+      cbn [from_protocol Z.eqb] in Hf. destruct Hf as (_ & -> & _). eexists. reflexivity.
+    + exfalso. destruct (Hpre _ _ _ _ Hr _ _ Hr' ltac:(lia)) as (resp1 & s2 & A1 & A2 & A3).
+      unfold lookup_final in Hf. rewrite A1, A2 in Hf. destruct Hf as (_ & _ & Hf). specialize (Hf eq_refl). lia.
+Qed.
+
+Corollary C14_lookup_exhausted : forall fuel group req attempt s r s',
+  group_lookup_loop fuel group req attempt s = (r, s') -> (length (script s) < fuel)%nat ->
+  r = Err (EKafka KC_GroupCoordinatorNotAvailable) ->
+  exists n sk, lookup_retried req n attempt s sk /\
+    retry_max_attempts (cfg (cl s)) <= attempt + Z.of_nat n /\
+    (* ... and every retry happened below the limit: n <= max 0 (limit - attempt) *)
+    (0 < n -> attempt + Z.of_nat n <= retry_max_attempts (cfg (cl s)))%Z.
+Proof.
+Abort.
